@@ -218,11 +218,44 @@ func decorate(rng *rand.Rand, np *v1.NodePool) {
 }
 
 // genPool returns a candidate NodePool and its shape name.
-func genPool(rng *rand.Rand, name string) (*v1.NodePool, string) {
+func genPool(rng *rand.Rand, name string, static bool) (*v1.NodePool, string) {
 	cfg := gen.PoolCfg{PTaint: 0.3, PRequirement: 0.5, PCustomLabel: 0.35, NumericOps: true, PMinValues: 0.1}
 	np := gen.NodePool(rng, name, cfg)
 	shape := customShape(rng, np)
 	decorate(rng, np)
+	if static {
+		one := int64(1)
+		np.Spec.Replicas = &one
+		if rng.Intn(4) != 0 { // weight and resource limits are refused on static pools by the CRD's CEL rules
+			np.Spec.Weight = nil
+		}
+		if rng.Intn(4) != 0 {
+			np.Spec.Limits = nil
+			if rng.Intn(2) == 0 {
+				np.Spec.Limits = v1.Limits{"nodes": gen.Q("10")}
+			}
+		}
+		shape = "static/" + shape
+	}
+	// shapes the API server / RuntimeValidate refuse (they must be dropped by the admission pipeline)
+	if rng.Intn(16) == 0 {
+		t := &np.Spec.Template
+		switch rng.Intn(6) {
+		case 0:
+			t.Spec.Requirements = append(t.Spec.Requirements, gen.R(gen.LabelTier, corev1.NodeSelectorOpGt, "-1"))
+		case 1:
+			t.Spec.Requirements = append(t.Spec.Requirements, gen.R(gen.LabelTier, corev1.NodeSelectorOpIn))
+		case 2:
+			t.Spec.Requirements = append(t.Spec.Requirements, gen.R(gen.LabelTier, corev1.NodeSelectorOpLt, "1", "2"))
+		case 3:
+			t.Spec.Requirements = append(t.Spec.Requirements, gen.R("karpenter.sh/custom", corev1.NodeSelectorOpExists))
+		case 4:
+			t.Labels = map[string]string{corev1.LabelHostname: "h"}
+		case 5:
+			t.Spec.Taints = append(t.Spec.Taints, corev1.Taint{Key: "dup", Effect: corev1.TaintEffectNoSchedule}, corev1.Taint{Key: "dup", Value: "x", Effect: corev1.TaintEffectNoSchedule})
+		}
+		shape += "+invalid"
+	}
 	if np.Spec.Template.Spec.Requirements == nil {
 		np.Spec.Template.Spec.Requirements = []gen.Req{} // "requirements" is a required field
 	}
